@@ -889,6 +889,43 @@ theorem cacheLen_in_range (pinned : Bool) (limit : Int) (stops : List Bytes) (pr
           rw [hst, flush_pending]
           simp
 
+/-- the ghost `cacheLenRun` follows `run`: it yields a cache length exactly when `run` ends with the sequence removed -/
+theorem cacheLenRun_isSome_iff (pinned : Bool) (limit : Int) (stops : List Bytes) (promptLen : Nat) :
+    ∀ (evs : List Ev) (st : St), st.done = none → st.cause = none →
+      ((cacheLenRun pinned limit stops promptLen st evs).isSome = (run pinned limit stops st evs).done.isSome) := by
+  intro evs
+  induction evs with
+  | nil =>
+    intro st hd _
+    unfold cacheLenRun run
+    split
+    · simp
+    · simp [hd]
+  | cons ev rest ih =>
+    intro st hdone hcause
+    unfold cacheLenRun run
+    split
+    · simp
+    · cases ev with
+      | eos => simp
+      | piece p =>
+        simp only
+        rcases stepPiece_cases pinned stops st p with ⟨s, hs, hst⟩ | ⟨_, _, hst⟩ | ⟨_, _, _, hst⟩
+        · have hc : (stepPiece pinned stops st p).cause = some (.stopString s) := by rw [hst]; simp
+          have hd : (stepPiece pinned stops st p).done.isSome = true := by rw [hst]; simp
+          rw [hc]
+          simp [hd]
+        · have hc : (stepPiece pinned stops st p).cause = none := by rw [hst]; exact hcause
+          have hd : (stepPiece pinned stops st p).done = none := by rw [hst]; exact hdone
+          rw [hc]
+          simp only [hd, Option.isSome_none, Bool.false_eq_true, if_false]
+          exact ih _ hd hc
+        · have hc : (stepPiece pinned stops st p).cause = none := by rw [hst, flush_cause]; exact hcause
+          have hd : (stepPiece pinned stops st p).done = none := by rw [hst, flush_done]; exact hdone
+          rw [hc]
+          simp only [hd, Option.isSome_none, Bool.false_eq_true, if_false]
+          exact ih _ hd hc
+
 /-- `cacheLen_in_range` from the start of a request -/
 theorem cache_reslice_in_range (pinned : Bool) (limit : Int) (stops : List Bytes) (promptLen : Nat)
     (hne : ∀ t ∈ stops, t ≠ []) (evs : List Ev) (n : Int)
